@@ -207,12 +207,37 @@ theorem fn_valuesVI_outs (vis : List ValueInfoP) (hvis : vis.all wfVI = true) (c
         simp only [Bool.and_true, if_true]
         rw [newValueT_vi vis hvis s hs]
 
+/-- the deserialized function, with its value table as a parameter -/
+def fnIR (f : FunctionP) (tbl : List IRValue) (xs : List IRNode) (gouts : List IRGOut)
+    (as : List IRAttr) : IRFunction :=
+  IRFunction.mk f.domain f.name f.overload
+    (.mk tbl (List.range f.inputs.length) [] xs gouts
+      (if f.overload.isEmpty then "" else f.name ++ "_" ++ f.domain ++ "__" ++ f.overload) f.doc
+      (opsetDict f.opsetImport) (dictOfEntries f.metadata))
+    (as ++ f.attrNames.map fun n => IRAttr.undefined n "")
+
+theorem valuesVI_false (tbl : List IRValue) (is : List Nat) : valuesVI tbl false is = [] := by
+  induction is with
+  | nil => rfl
+  | cons i is ih => simp [valuesVI, ih]
+
+/-- what `function_rt` exposes about the deserialized function besides the round trip: its shape,
+the output indices of its nodes, and that serialization without value_info (IR < 10) only depends on
+the names in the table -/
+def FnShape (ver : Int) (f : FunctionP) (x : IRFunction) : Prop :=
+  ∃ xs gouts as,
+    x = fnIR f (f.inputs.map (newValueT f.valueInfo []) ++ (nodeOutNames f.nodes).map (newValueT f.valueInfo []))
+      xs gouts as ∧
+    xs.flatMap IRNode.outputs = (f.nodes.flatMap NodeP.outputs).map
+      (fun s => if s = "" then none else lookupLast (f.inputs ++ nodeOutNames f.nodes) s) ∧
+    ∀ tbl', tableNames tbl' = f.inputs ++ nodeOutNames f.nodes →
+      serFunction (some ver) false (fnIR f tbl' xs gouts as) = .ok (normFunction false f)
+
 theorem function_rt (ver : Int) (f : FunctionP) (h : wfFunction ver f = true)
     (hver : 11 ≤ ver ∨ nodesHaveDevCfg f.nodes = false) :
     ∃ x, desFunction f = .ok x ∧
       serFunction (some ver) (decide (ver ≥ 10)) x = .ok (normFunction (decide (ver ≥ 10)) f) ∧
-      fnKey x = (f.domain, f.name, f.overload) ∧
-      (f.valueInfo = [] → ∀ v ∈ x.graph.table, shouldCreateVI v = false) := by
+      fnKey x = (f.domain, f.name, f.overload) ∧ FnShape ver f x := by
   simp only [wfFunction, Bool.and_eq_true] at h
   obtain ⟨⟨⟨⟨⟨⟨⟨⟨⟨⟨⟨⟨h1, h2⟩, h3⟩, h4⟩, h5⟩, h6⟩, h7⟩, h8⟩, _h9⟩, h10⟩, _h11⟩, h12⟩, _h13⟩ := h
   have hnd := nodupStr_iff.1 h1
@@ -236,7 +261,7 @@ theorem function_rt (ver : Int) (f : FunctionP) (h : wfFunction ver f = true)
   rw [hN] at n2 n3
   obtain ⟨gouts, o1, o2⟩ := functionOutputs_eq (f.inputs ++ nodeOutNames f.nodes) f.outputs
     (by intro n hn; have := List.all_eq_true.1 h3 n hn; simpa using this)
-  obtain ⟨as, a1, a2, a3⟩ := attrs_rt [] f.attrProtos h5
+  obtain ⟨as, a1, a2, a3⟩ := attrs_rt [] none f.attrProtos h5 (Or.inl rfl)
   have hasv := desAttrs_hasValue [] f.attrProtos as a1 h5
     (by rw [List.all_eq_true]; intro a ha
         have := List.all_eq_true.1 h6 a ha
@@ -251,23 +276,28 @@ theorem function_rt (ver : Int) (f : FunctionP) (h : wfFunction ver f = true)
     rw [this]
     exact nodup_append_comm' hn4
   obtain ⟨fa1, fa2⟩ := filter_hasValue_append as f.attrNames hasv
-  refine ⟨IRFunction.mk f.domain f.name f.overload
-      (.mk (f.inputs.map (newValueT f.valueInfo [])
-          ++ (nodeOutNames f.nodes).map (newValueT f.valueInfo []))
-        (List.range f.inputs.length) [] xs gouts
-        (if f.overload.isEmpty then "" else f.name ++ "_" ++ f.domain ++ "__" ++ f.overload) f.doc
-        (opsetDict f.opsetImport) (dictOfEntries f.metadata))
-      (as ++ f.attrNames.map fun n => IRAttr.undefined n ""), ?_, ?_, rfl, ?_⟩
-  · simp only [desFunction, hI, hC, n1, hN, o1, a1, hdict, bind, Except.bind]
-  · -- serialization
-    have hlen : f.inputs.length ≤ (f.inputs ++ nodeOutNames f.nodes).length := by simp
-    have hins : (List.range f.inputs.length).map
-        (fun i => refName [f.inputs ++ nodeOutNames f.nodes] ⟨0, i⟩) = f.inputs := by
-      have := map_range_getD (f.inputs ++ nodeOutNames f.nodes) "" id f.inputs.length hlen
-      simpa [refName] using this
-    have hopset : opsetDict f.opsetImport = f.opsetImport :=
-      dictByKey_nodup _ _ (nodupStr_iff.1 h10)
-    -- value info
+  have hlen : f.inputs.length ≤ (f.inputs ++ nodeOutNames f.nodes).length := by simp
+  have hins : (List.range f.inputs.length).map
+      (fun i => refName [f.inputs ++ nodeOutNames f.nodes] ⟨0, i⟩) = f.inputs := by
+    have := map_range_getD (f.inputs ++ nodeOutNames f.nodes) "" id f.inputs.length hlen
+    simpa [refName] using this
+  have hopset : opsetDict f.opsetImport = f.opsetImport :=
+    dictByKey_nodup _ _ (nodupStr_iff.1 h10)
+  -- serialization, for any table with the right names
+  have hser : ∀ (tbl' : List IRValue) (c : Bool), tableNames tbl' = f.inputs ++ nodeOutNames f.nodes →
+      serFunction (some ver) c (fnIR f tbl' xs gouts as) = .ok
+        { normFunction c f with
+          valueInfo := valuesVI tbl' c (List.range f.inputs.length)
+            ++ valuesVI tbl' c (optNats (xs.flatMap IRNode.outputs)) } := by
+    intro tbl' c htn
+    simp only [serFunction, fnIR, IRGraph.table, IRGraph.nodes, IRGraph.inputs, IRGraph.outputs,
+      IRGraph.doc, IRGraph.opsets, IRGraph.mprops, htn, serFunctionAttrs, fa1, fa2, a2, n2, hins, o2,
+      hopset, bind, Except.bind, normFunction, normEntries]
+  refine ⟨fnIR f (f.inputs.map (newValueT f.valueInfo [])
+      ++ (nodeOutNames f.nodes).map (newValueT f.valueInfo [])) xs gouts as, ?_, ?_, rfl,
+    ⟨xs, gouts, as, rfl, n3, ?_⟩⟩
+  · simp only [desFunction, fnIR, hI, hC, n1, hN, o1, a1, hdict, bind, Except.bind]
+  · -- value info
     have hvi1 : valuesVI (f.inputs.map (newValueT f.valueInfo [])
           ++ (nodeOutNames f.nodes).map (newValueT f.valueInfo [])) (decide (ver ≥ 10))
           (List.range f.inputs.length)
@@ -285,19 +315,12 @@ theorem function_rt (ver : Int) (f : FunctionP) (h : wfFunction ver f = true)
         (by intro s hs hne'
             simp only [nodeOutNames, List.mem_filter]
             exact ⟨hs, by simpa using hne'⟩)
-    simp only [serFunction, IRGraph.table, IRGraph.nodes, IRGraph.inputs, IRGraph.outputs, IRGraph.doc,
-      IRGraph.opsets, IRGraph.mprops, hN, serFunctionAttrs, fa1, fa2, a2, n2, hins, o2, hopset, hvi1,
-      hvi2, bind, Except.bind, normFunction, normEntries, normFnVIs_eq, List.flatMap_append]
-    cases f
+    rw [hser _ _ hN, hvi1, hvi2]
+    simp only [normFunction, normFnVIs_eq, List.flatMap_append]
     by_cases hc : ver ≥ 10 <;> simp [hc]
-  · intro hvi v hv
-    simp only [IRGraph.table, List.mem_append, List.mem_map] at hv
-    have : ∀ n, shouldCreateVI (newValueT f.valueInfo [] n) = false := by
-      intro n
-      unfold newValueT
-      rw [shouldCreateVI_congr (sameInfo_applyQuant [] _), hvi]
-      simp [findVI, findLast?, shouldCreateVI, IRValue.blank]
-    rcases hv with ⟨n, _, rfl⟩ | ⟨n, _, rfl⟩ <;> exact this n
+  · intro tbl' htn
+    rw [hser tbl' false htn, valuesVI_false, valuesVI_false]
+    simp [normFunction]
 
 /-! ### models -/
 
@@ -322,13 +345,18 @@ theorem functionDict_append : ∀ (l acc : List IRFunction), ((acc ++ l).map fnK
     rw [functionDict_append xs (acc ++ [x]) (by simpa using h)]
     simp
 
+/-- pointwise relation between two lists -/
+inductive Pointwise {α β : Type} (R : α → β → Prop) : List α → List β → Prop where
+  | nil : Pointwise R [] []
+  | cons {a b as bs} : R a b → Pointwise R as bs → Pointwise R (a :: as) (b :: bs)
+
 theorem functions_rt (ver : Int) : ∀ fs : List FunctionP, fs.all (wfFunction ver) = true →
     (11 ≤ ver ∨ fs.all (fun f => !nodesHaveDevCfg f.nodes) = true) →
     ∃ xs, desFunctions fs = .ok xs ∧
       serFunctions ver xs = .ok (fs.map (normFunction (decide (ver ≥ 10)))) ∧
       xs.map fnKey = fs.map (fun f => (f.domain, f.name, f.overload)) ∧
-      ((ver < 10) → ∀ x ∈ xs, ∀ v ∈ x.graph.table, shouldCreateVI v = false)
-  | [], _, _ => ⟨[], rfl, rfl, rfl, by intro _ x hx; cases hx⟩
+      Pointwise (FnShape ver) fs xs
+  | [], _, _ => ⟨[], rfl, rfl, rfl, Pointwise.nil⟩
   | f :: fs, h, hver => by
     simp only [List.all_cons, Bool.and_eq_true] at h
     have hv1 : 11 ≤ ver ∨ nodesHaveDevCfg f.nodes = false := by
@@ -341,67 +369,436 @@ theorem functions_rt (ver : Int) : ∀ fs : List FunctionP, fs.all (wfFunction v
       · simp only [List.all_cons, Bool.and_eq_true] at hv; exact Or.inr hv.2
     obtain ⟨x, g1, g2, g3, g4⟩ := function_rt ver f h.1 hv1
     obtain ⟨xs, r1, r2, r3, r4⟩ := functions_rt ver fs h.2 hv2
-    refine ⟨x :: xs, by simp [desFunctions, g1, r1, bind, Except.bind],
-      by simp [serFunctions, g2, r2, bind, Except.bind], by simp [g3, r3], ?_⟩
-    intro hlt y hy
-    rcases List.mem_cons.1 hy with rfl | hy
-    · apply g4
-      have := h.1
-      simp only [wfFunction, Bool.and_eq_true, Bool.or_eq_true, decide_eq_true_eq,
-        List.isEmpty_iff] at this
-      rcases this.2 with h10 | h10
-      · omega
-      · exact h10
-    · exact r4 hlt y hy
+    exact ⟨x :: xs, by simp [desFunctions, g1, r1, bind, Except.bind],
+      by simp [serFunctions, g2, r2, bind, Except.bind], by simp [g3, r3], Pointwise.cons g4 r4⟩
 
-theorem serExperimental_nil (x : IRFunction)
-    (h : ∀ v ∈ x.graph.table, shouldCreateVI v = false) : serExperimental x = [] := by
-  have hb : shouldCreateVI (IRValue.blank "") = false := by simp [shouldCreateVI, IRValue.blank]
-  have hget : ∀ i, shouldCreateVI (x.graph.table.getD i (IRValue.blank "")) = false := by
-    intro i
-    simp only [List.getD]
-    cases hi : x.graph.table[i]? with
-    | none => simpa using hb
-    | some v => simpa using h v (List.mem_of_getElem? hi)
-  have hget' : ∀ i : Nat, shouldCreateVI (x.graph.table[i]?.getD (IRValue.blank "")) = false := by
-    intro i; simpa [List.getD] using hget i
-  unfold serExperimental
-  split
-  · rfl
-  · simp only [List.append_eq_nil_iff, List.flatMap_eq_nil_iff]
-    constructor <;> intro i _ <;> simp [hget']
+/-! ### the experimental `domain::name/value` encoding (IR < 10) -/
 
-theorem applyExperimental_nil : ∀ (is : List Nat) (tbl : List IRValue),
-    applyExperimental [] is tbl = .ok tbl
+theorem partitionChars_spec (sep : List Char) : ∀ (l a b : List Char),
+    partitionChars sep l = some (a, b) → l = a ++ sep ++ b
+  | [], a, b, h => by
+    simp only [partitionChars] at h
+    split at h
+    · rename_i hs
+      cases h
+      simp [List.isEmpty_iff.1 hs]
+    · cases h
+  | c :: cs, a, b, h => by
+    simp only [partitionChars] at h
+    split at h
+    · rename_i hp
+      cases h
+      have := List.isPrefixOf_iff_prefix.1 hp
+      obtain ⟨t, ht⟩ := this
+      rw [← ht]
+      simp
+    · cases hr : partitionChars sep cs with
+      | none => rw [hr] at h; cases h
+      | some ab =>
+        rw [hr] at h
+        simp only [Option.map_some, Option.some.injEq, Prod.mk.injEq] at h
+        obtain ⟨rfl, rfl⟩ := h
+        have := partitionChars_spec sep cs ab.1 ab.2 (by rw [hr])
+        rw [this]; simp
+
+theorem partitionStr_spec {sep s a b : String} (h : partitionStr sep s = some (a, b)) :
+    s = a ++ sep ++ b := by
+  unfold partitionStr at h
+  cases hr : partitionChars sep.toList s.toList with
+  | none => rw [hr] at h; cases h
+  | some ab =>
+    rw [hr] at h
+    simp only [Option.map_some, Option.some.injEq, Prod.mk.injEq] at h
+    obtain ⟨rfl, rfl⟩ := h
+    have := partitionChars_spec _ _ _ _ (by rw [hr])
+    apply String.toList_injective
+    simp [String.toList_append, String.toList_ofList, this]
+
+/-- a name that parses is exactly the formatted name of what it parses to -/
+theorem parseExperimentalName_spec {x d n vn : String}
+    (h : parseExperimentalName x = some (d, n, vn)) : x = experimentalName d n vn := by
+  unfold parseExperimentalName at h
+  cases h1 : partitionStr "::" x with
+  | none => rw [h1] at h; cases h
+  | some dr =>
+    obtain ⟨d', rest⟩ := dr
+    rw [h1] at h
+    simp only at h
+    cases h2 : partitionStr "/" rest with
+    | none => rw [h2] at h; cases h
+    | some nv =>
+      obtain ⟨n', vn'⟩ := nv
+      rw [h2] at h
+      simp only [Option.some.injEq, Prod.mk.injEq] at h
+      obtain ⟨rfl, rfl, rfl⟩ := h
+      rw [partitionStr_spec h1, partitionStr_spec h2]
+      apply String.toList_injective
+      simp [experimentalName, String.toList_append, List.append_assoc]
+
+theorem experimentalName_ne_empty (d n vn : String) : (experimentalName d n vn).isEmpty = false := by
+  rw [Bool.eq_false_iff]
+  intro h
+  have : experimentalName d n vn = "" := by simpa [String.isEmpty_iff] using h
+  have := congrArg String.toList this
+  simp [experimentalName, String.toList_append] at this
+
+/-- the info the experimental entries `m` (keyed by value name) give to a function value -/
+def expUpd (m : List (String × ValueInfoP)) (v : IRValue) : IRValue :=
+  match findLast? (fun e => e.1 = v.name) m with
+  | some e => applyInfoT v e.2
+  | none => v
+
+@[simp] theorem expUpd_name (m : List (String × ValueInfoP)) (v : IRValue) : (expUpd m v).name = v.name := by
+  unfold expUpd; split <;> rfl
+
+theorem getD_name (tbl : List IRValue) (i : Nat) (h : i < tbl.length) :
+    (tbl.getD i (IRValue.blank "")).name = (tableNames tbl).getD i "" := by
+  simp [List.getD, tableNames, List.getElem?_eq_getElem h]
+
+theorem ite_mem_cons_ne {α : Type} {x n : String} (L : List String) (a b : α) (h : x ≠ n) :
+    (if x ∈ n :: L then a else b) = (if x ∈ L then a else b) := by
+  by_cases hL : x ∈ L
+  · rw [if_pos hL, if_pos (List.mem_cons_of_mem _ hL)]
+  · rw [if_neg hL, if_neg (by intro hm; rcases List.mem_cons.1 hm with e | e; exact h e; exact hL e)]
+
+theorem ite_mem_cons_self {α : Type} (n : String) (L : List String) (a b : α) :
+    (if n ∈ n :: L then a else b) = a := by
+  rw [if_pos (List.mem_cons_self ..)]
+
+/-- names of the table entries at the indices `is` -/
+def namesAt (N : List String) (is : List Nat) : List String := is.map (fun i => N.getD i "")
+
+theorem namesAt_cons (N : List String) (i : Nat) (is : List Nat) :
+    namesAt N (i :: is) = N.getD i "" :: namesAt N is := rfl
+
+theorem applyExperimental_spec (m : List (String × ValueInfoP))
+    (hm : ∀ e ∈ m, wfType e.2.type = true) :
+    ∀ (is : List Nat) (tbl : List IRValue), (tableNames tbl).Nodup → (∀ i ∈ is, i < tbl.length) →
+      (namesAt (tableNames tbl) is).Nodup →
+      applyExperimental m is tbl = .ok (tbl.map (fun v =>
+        if v.name ∈ namesAt (tableNames tbl) is then expUpd m v else v))
+  | [], tbl, _, _, _ => by simp [applyExperimental, namesAt]
+  | i :: is, tbl, hnd, hlt, hnn => by
+    have hi : i < tbl.length := hlt i (by simp)
+    rw [namesAt_cons, List.nodup_cons] at hnn
+    have hname := getD_name tbl i hi
+    have hNi : (tableNames tbl)[i]? = some ((tableNames tbl).getD i "") := by
+      have : i < (tableNames tbl).length := by simpa [tableNames] using hi
+      simp [List.getD, List.getElem?_eq_getElem this]
+    have hlk := lookupLast_of_nodup hnd hNi
+    rw [namesAt_cons]
+    cases hf : findLast? (fun e => e.1 = (tbl.getD i (IRValue.blank "")).name) m with
+    | none =>
+      simp only [applyExperimental, hf]
+      rw [applyExperimental_spec m hm is tbl hnd (fun k hk => hlt k (List.mem_cons_of_mem _ hk)) hnn.2]
+      congr 1
+      apply List.map_congr_left
+      intro u _
+      by_cases hu : u.name = (tableNames tbl).getD i ""
+      · have : expUpd m u = u := by
+          unfold expUpd
+          rw [hu, ← hname, hf]
+        rw [hu, ite_mem_cons_self, ← hu, this]
+        split <;> rfl
+      · rw [ite_mem_cons_ne _ _ _ hu]
+    | some e =>
+      have hwf := hm e (findLast?_mem hf).1
+      have hupd := listSet_eq_updName hnd (by rw [← hname] at hlk; exact hlk) (fun v => applyInfoT v e.2)
+      have hN1 : tableNames (updName tbl (tbl.getD i (IRValue.blank "")).name (fun v => applyInfoT v e.2))
+          = tableNames tbl := tableNames_updName _ _ _ (fun _ => rfl)
+      simp only [applyExperimental, hf, (applyInfo_eq _ e.2 hwf).1, bind, Except.bind, hupd]
+      rw [applyExperimental_spec m hm is _ (by rw [hN1]; exact hnd)
+        (fun k hk => by simpa [updName] using hlt k (List.mem_cons_of_mem _ hk)) (by rw [hN1]; exact hnn.2),
+        hN1]
+      congr 1
+      simp only [updName, List.map_map]
+      apply List.map_congr_left
+      intro u _
+      simp only [Function.comp]
+      by_cases hu : u.name = (tbl.getD i (IRValue.blank "")).name
+      · have h1 : expUpd m u = applyInfoT u e.2 := by
+          unfold expUpd; rw [hu, hf]
+        have h2 : (applyInfoT u e.2).name ∉ namesAt (tableNames tbl) is := by
+          rw [applyInfoT_name, hu, hname]; exact hnn.1
+        rw [if_pos hu, if_neg h2]
+        have hu2 : u.name = (tableNames tbl).getD i "" := by rw [hu, hname]
+        rw [hu2, ite_mem_cons_self]
+        exact h1.symm
+      · have hu' : ¬ u.name = (tableNames tbl).getD i "" := by rw [← hname]; exact hu
+        rw [if_neg hu, ite_mem_cons_ne _ _ _ hu']
+
+/-! index-driven loops over a function's table, as loops over its value names -/
+
+theorem flatMap_range_getD {β : Type} (l : List IRValue) (n : Nat) (g : IRValue → List β)
+    (hn : n ≤ l.length) :
+    (List.range n).flatMap (fun i => g (l.getD i (IRValue.blank ""))) = (l.take n).flatMap g := by
+  have := map_range_getD l (IRValue.blank "") g n hn
+  rw [List.flatMap_def, this, ← List.flatMap_def]
+
+theorem flatMap_outs_getD {β : Type} (F : String → IRValue) (hF : ∀ n, (F n).name = n)
+    (ins outs : List String) (hnd : (ins ++ outs).Nodup) (g : IRValue → List β) :
+    ∀ os : List String, (∀ s ∈ os, s ≠ "" → s ∈ outs) →
+      (optNats (os.map (fun s => if s = "" then none else lookupLast (ins ++ outs) s))).flatMap
+          (fun i => g (((ins ++ outs).map F).getD i (IRValue.blank "")))
+        = (os.filter (· ≠ "")).flatMap (fun n => g (F n))
   | [], _ => rfl
-  | i :: is, tbl => by simp [applyExperimental, findLast?, applyExperimental_nil is tbl]
+  | s :: os, hsub => by
+    have ih := flatMap_outs_getD F hF ins outs hnd g os (fun t ht => hsub t (List.mem_cons_of_mem _ ht))
+    by_cases hs : s = ""
+    · subst hs; simpa [optNats] using ih
+    · have hso : s ∈ outs := hsub s (by simp) hs
+      obtain ⟨j, hj⟩ := lookupLast_exists (List.mem_append_right ins hso)
+      have hN : tableNames ((ins ++ outs).map F) = ins ++ outs := by
+        simp [tableNames, List.map_map, Function.comp_def, hF]
+      have hv : ((ins ++ outs).map F).getD j (IRValue.blank "") = F s :=
+        getD_of_lookup (by rw [hN]; exact hnd) (by rw [hN]; exact hj)
+          (List.mem_map_of_mem (List.mem_append_right _ hso)) (hF s)
+      have hf : (s :: os).filter (· ≠ "") = s :: os.filter (· ≠ "") := by simp [hs]
+      simp only [List.map_cons, hs, if_false, hj, optNats, List.flatMap_cons, hv, ih, hf]
 
-theorem experimentalFor_nil (vis : List ValueInfoP) (d n : String)
-    (h : vis.all (fun vi => (parseExperimentalName vi.name).isNone) = true) :
-    experimentalFor vis d n = [] := by
-  unfold experimentalFor
-  rw [List.filterMap_eq_nil_iff]
-  intro vi hvi
-  have := List.all_eq_true.1 h vi hvi
+theorem namesAt_range (N : List String) (n : Nat) (hn : n ≤ N.length) :
+    namesAt N (List.range n) = N.take n := by
+  have := map_range_getD N "" id n hn
+  simpa [namesAt] using this
+
+theorem namesAt_outs (N : List String) : ∀ os : List String, (∀ s ∈ os, s ≠ "" → s ∈ N) →
+    namesAt N (optNats (os.map (fun s => if s = "" then none else lookupLast N s)))
+      = os.filter (· ≠ "") ∧
+    ∀ i ∈ optNats (os.map (fun s => if s = "" then none else lookupLast N s)), i < N.length
+  | [], _ => ⟨rfl, by intro i hi; cases hi⟩
+  | s :: os, hsub => by
+    obtain ⟨ih1, ih2⟩ := namesAt_outs N os (fun t ht => hsub t (List.mem_cons_of_mem _ ht))
+    by_cases hs : s = ""
+    · subst hs
+      have hf : (("" : String) :: os).filter (· ≠ "") = os.filter (· ≠ "") := by simp
+      simp only [List.map_cons, if_true, optNats, hf]
+      exact ⟨ih1, ih2⟩
+    · obtain ⟨j, hj⟩ := lookupLast_exists (hsub s (by simp) hs)
+      have hf : (s :: os).filter (· ≠ "") = s :: os.filter (· ≠ "") := by simp [hs]
+      simp only [List.map_cons, hs, if_false, hj, optNats, namesAt_cons, ih1, hf]
+      refine ⟨by simp [List.getD, lookupLast_getElem hj], ?_⟩
+      intro i hi
+      rcases List.mem_cons.1 hi with rfl | hi
+      · exact lookupLast_lt hj
+      · exact ih2 i hi
+
+theorem findLast?_experimentalFor (V : List ValueInfoP) (d nm vn : String) :
+    findLast? (fun e => e.1 = vn) (experimentalFor V d nm)
+      = (findLast? (fun e => parseExperimentalName e.name = some (d, nm, vn)) V).map (fun e => (vn, e)) := by
+  induction V with
+  | nil => rfl
+  | cons v V ih =>
+    cases hp : parseExperimentalName v.name with
+    | none =>
+      have hcons : experimentalFor (v :: V) d nm = experimentalFor V d nm := by
+        simp [experimentalFor, List.filterMap_cons, hp]
+      rw [hcons, ih]
+      simp only [findLast?, hp]
+      cases findLast? (fun e => parseExperimentalName e.name = some (d, nm, vn)) V <;> simp
+    | some x =>
+      obtain ⟨d', n', vn'⟩ := x
+      by_cases hc : d' = d ∧ n' = nm
+      · obtain ⟨rfl, rfl⟩ := hc
+        have hcons : experimentalFor (v :: V) d' n' = (vn', v) :: experimentalFor V d' n' := by
+          simp [experimentalFor, List.filterMap_cons, hp]
+        rw [hcons]
+        simp only [findLast?, ih, hp]
+        cases findLast? (fun e => parseExperimentalName e.name = some (d', n', vn)) V with
+        | some y => rfl
+        | none =>
+          by_cases hv : vn' = vn
+          · subst hv; simp
+          · simp [hv]
+      · have hcons : experimentalFor (v :: V) d nm = experimentalFor V d nm := by
+          simp [experimentalFor, List.filterMap_cons, hp, hc]
+        have : ¬ (d', n', vn') = (d, nm, vn) := by
+          intro e; simp only [Prod.mk.injEq] at e; exact hc ⟨e.1, e.2.1⟩
+        rw [hcons, ih]
+        simp only [findLast?, hp, Option.some.injEq, this, decide_false]
+        cases findLast? (fun e => parseExperimentalName e.name = some (d, nm, vn)) V <;> simp
+
+theorem applyQuant_nil (v : IRValue) : applyQuant [] v = v := by
+  simp [applyQuant, findAnnot, findLast?]
+
+theorem newValueT_nil (n : String) : newValueT [] [] n = IRValue.blank n := by
+  simp [newValueT, findVI, findLast?, applyQuant_nil]
+
+/-- what the serializer writes for the function value `n` after the experimental entries were applied -/
+theorem exp_value (V : List ValueInfoP) (hV : V.all wfVI = true) (f : FunctionP) (n : String)
+    (hn : n ≠ "") :
+    expEmit f.domain f.name (expUpd (experimentalFor V f.domain f.name) (IRValue.blank n))
+    = (expEntry V f n).toList := by
+  have hne : n.isEmpty = false := by simpa [String.isEmpty_iff] using hn
+  simp only [expEmit, expUpd_name]
+  have hb : (IRValue.blank n).name = n := rfl
+  rw [hb, hne]
+  simp only [Bool.false_eq_true, if_false]
+  unfold expUpd expEntry
+  rw [hb, findLast?_experimentalFor]
+  cases hf : findLast? (fun e => parseExperimentalName e.name = some (f.domain, f.name, n)) V with
+  | none => simp [shouldCreateVI, IRValue.blank]
+  | some e =>
+    obtain ⟨hmem, hp⟩ := findLast?_mem hf
+    have hp' : parseExperimentalName e.name = some (f.domain, f.name, n) := by simpa using hp
+    have hname := parseExperimentalName_spec hp'
+    have hwf := List.all_eq_true.1 hV e hmem
+    have hwt : wfType e.type = true := by
+      simp only [wfVI, Bool.and_eq_true] at hwf; exact hwf.1
+    obtain ⟨_, h3, h4⟩ := applyInfo_eq (IRValue.blank n) e hwt
+    simp only [Option.map_some]
+    have hsc : shouldCreateVI (applyInfoT (IRValue.blank n) e) = viHasInfo e := by
+      simp only [shouldCreateVI, applyInfoT, IRValue.blank, viHasInfo, h4,
+        dictUpdate_nil _ (nodup_dkeys_dictOfEntries _), dictOfEntries_isEmpty, hne]
+      simp
+    rw [hsc, ← hname, hp']
+    simp only [if_true]
+    by_cases hi : viHasInfo e = true
+    · simp only [hi, if_true, Option.toList]
+      congr 1
+      have hnee : e.name.isEmpty = false := by rw [hname]; exact experimentalName_ne_empty _ _ _
+      simp only [serValueAs, hnee, Bool.false_eq_true, if_false, applyInfoT, IRValue.blank, h3,
+        normValueInfo, normEntries, dictUpdate_nil _ (nodup_dkeys_dictOfEntries _)]
+    · have hi' : viHasInfo e = false := by simpa using hi
+      simp [hi']
+
+theorem experimentalFor_wf (V : List ValueInfoP) (hV : V.all wfVI = true) (d n : String) :
+    ∀ e ∈ experimentalFor V d n, wfType e.2.type = true := by
+  intro e he
+  simp only [experimentalFor, List.mem_filterMap] at he
+  obtain ⟨vi, hvi, hx⟩ := he
+  have hwf := List.all_eq_true.1 hV vi hvi
+  simp only [wfVI, Bool.and_eq_true] at hwf
   cases hp : parseExperimentalName vi.name with
-  | none => rfl
-  | some x => rw [hp] at this; cases this
+  | none => rw [hp] at hx; cases hx
+  | some x =>
+    obtain ⟨d', n', vn⟩ := x
+    rw [hp] at hx
+    simp only at hx
+    split at hx
+    · cases hx; exact hwf.1
+    · cases hx
 
-theorem applyExperimentalAll_nil (vis : List ValueInfoP)
-    (h : vis.all (fun vi => (parseExperimentalName vi.name).isNone) = true) :
-    ∀ xs : List IRFunction, applyExperimentalAll vis xs = .ok xs
-  | [] => rfl
-  | x :: xs => by
-    have : applyExperimentalFn vis x = .ok x := by
-      unfold applyExperimentalFn
-      split
-      · cases hx : x.graph with
-        | mk tbl ins inits nodes outs name doc opsets mprops =>
-          simp only [experimentalFor_nil vis _ _ h, applyExperimental_nil, bind, Except.bind]
-          cases x
-          simp_all
-      · rfl
-    simp [applyExperimentalAll, this, applyExperimentalAll_nil vis h xs, bind, Except.bind]
+/-- IR < 10, one function: applying the experimental entries of the main graph and serializing -/
+theorem fn_experimental (ver : Int) (V : List ValueInfoP) (hV : V.all wfVI = true) (f : FunctionP)
+    (hwf : wfFunction ver f = true) (hvi : f.valueInfo = []) (x : IRFunction) (hx : FnShape ver f x) :
+    ∃ x', applyExperimentalFn V x = .ok x' ∧
+      serFunction (some ver) false x' = .ok (normFunction false f) ∧
+      serExperimental x' = experimentalVIs V f := by
+  obtain ⟨xs, gouts, as, rfl, hout, hser⟩ := hx
+  simp only [wfFunction, Bool.and_eq_true] at hwf
+  obtain ⟨⟨⟨⟨⟨⟨⟨⟨⟨⟨⟨⟨h1, h2⟩, _⟩, _⟩, _⟩, _⟩, _⟩, _⟩, _⟩, _⟩, _⟩, _⟩, _⟩ := hwf
+  have hnd := nodupStr_iff.1 h1
+  have hne := nodupStr_all_nonempty h2
+  rw [hvi]
+  by_cases hov : f.overload = ""
+  · -- the table of the function and the indices the loop visits
+    have htbl : f.inputs.map (newValueT [] []) ++ (nodeOutNames f.nodes).map (newValueT [] [])
+        = (f.inputs ++ nodeOutNames f.nodes).map IRValue.blank := by
+      have : newValueT [] [] = IRValue.blank := funext newValueT_nil
+      simp [List.map_append, this]
+    have hN : tableNames ((f.inputs ++ nodeOutNames f.nodes).map IRValue.blank)
+        = f.inputs ++ nodeOutNames f.nodes := by
+      simp [tableNames, List.map_map, Function.comp_def, IRValue.blank]
+    have hos : ∀ s ∈ f.nodes.flatMap NodeP.outputs, s ≠ "" → s ∈ nodeOutNames f.nodes := by
+      intro s hs hne'
+      simp only [nodeOutNames, List.mem_filter]
+      exact ⟨hs, by simpa using hne'⟩
+    obtain ⟨ho1, ho2⟩ := namesAt_outs (f.inputs ++ nodeOutNames f.nodes) (f.nodes.flatMap NodeP.outputs)
+      (fun s hs hn => List.mem_append_right _ (hos s hs hn))
+    have hnames : namesAt (f.inputs ++ nodeOutNames f.nodes)
+        (List.range f.inputs.length ++ optNats (xs.flatMap IRNode.outputs))
+        = f.inputs ++ nodeOutNames f.nodes := by
+      rw [hout]
+      simp only [namesAt, List.map_append]
+      have h1' := namesAt_range (f.inputs ++ nodeOutNames f.nodes) f.inputs.length (by simp)
+      simp only [namesAt] at h1' ho1
+      rw [h1', ho1, List.take_left' rfl]
+      rfl
+    have hspec := applyExperimental_spec (experimentalFor V f.domain f.name)
+      (experimentalFor_wf V hV _ _)
+      (List.range f.inputs.length ++ optNats (xs.flatMap IRNode.outputs))
+      ((f.inputs ++ nodeOutNames f.nodes).map IRValue.blank) (by rw [hN]; exact hnd)
+      (by intro i hi
+          rcases List.mem_append.1 hi with hi | hi
+          · have := List.mem_range.1 hi
+            simp; omega
+          · rw [hout] at hi
+            simpa using ho2 i hi)
+      (by rw [hN, hnames]; exact hnd)
+    rw [hN, hnames] at hspec
+    have hall : ((f.inputs ++ nodeOutNames f.nodes).map IRValue.blank).map (fun v =>
+          if v.name ∈ f.inputs ++ nodeOutNames f.nodes
+          then expUpd (experimentalFor V f.domain f.name) v else v)
+        = (f.inputs ++ nodeOutNames f.nodes).map
+            (fun n => expUpd (experimentalFor V f.domain f.name) (IRValue.blank n)) := by
+      rw [List.map_map]
+      apply List.map_congr_left
+      intro n hn
+      simp only [Function.comp]
+      rw [if_pos (by simpa [IRValue.blank] using hn)]
+    rw [hall] at hspec
+    have hN' : tableNames ((f.inputs ++ nodeOutNames f.nodes).map
+        (fun n => expUpd (experimentalFor V f.domain f.name) (IRValue.blank n)))
+        = f.inputs ++ nodeOutNames f.nodes := by
+      simp [tableNames, List.map_map, Function.comp_def, IRValue.blank]
+    refine ⟨fnIR f ((f.inputs ++ nodeOutNames f.nodes).map
+        (fun n => expUpd (experimentalFor V f.domain f.name) (IRValue.blank n))) xs gouts as, ?_,
+      hser _ hN', ?_⟩
+    · simp only [applyExperimentalFn, fnIR, hov, if_true, htbl, hspec, bind, Except.bind]
+    · -- what the serializer writes into the main graph
+      have hF : ∀ n, (expUpd (experimentalFor V f.domain f.name) (IRValue.blank n)).name = n := by
+        intro n; simp [IRValue.blank]
+      have hovE : f.overload.isEmpty = true := by simp [hov]
+      simp only [serExperimental, experimentalVIs, fnIR, hovE, Bool.not_true, Bool.false_eq_true,
+        if_false, IRGraph.table, IRGraph.inputs, IRGraph.nodes]
+      rw [flatMap_range_getD _ _ _ (by simp), hout,
+        flatMap_outs_getD _ hF f.inputs (nodeOutNames f.nodes) hnd _ _ hos]
+      have htake : ((f.inputs ++ nodeOutNames f.nodes).map
+          (fun n => expUpd (experimentalFor V f.domain f.name) (IRValue.blank n))).take f.inputs.length
+          = f.inputs.map (fun n => expUpd (experimentalFor V f.domain f.name) (IRValue.blank n)) := by
+        rw [List.map_append]
+        exact List.take_left' (by simp)
+      rw [htake, List.flatMap_map, List.filterMap_append]
+      have hfm : ∀ l : List String, (∀ n ∈ l, n ≠ "") →
+          l.flatMap (fun n => expEmit f.domain f.name
+            (expUpd (experimentalFor V f.domain f.name) (IRValue.blank n)))
+          = l.filterMap (expEntry V f) := by
+        intro l hl
+        induction l with
+        | nil => rfl
+        | cons n l ih =>
+          rw [List.flatMap_cons, exp_value V hV f n (hl n (by simp)),
+            ih (fun k hk => hl k (List.mem_cons_of_mem _ hk)), List.filterMap_cons]
+          cases expEntry V f n <;> rfl
+      have hf2 : (f.nodes.flatMap NodeP.outputs).filter (· ≠ "") = nodeOutNames f.nodes := rfl
+      rw [hf2, hfm f.inputs (fun n hn => hne n (List.mem_append_left _ hn)),
+        hfm (nodeOutNames f.nodes) (fun n hn => hne n (List.mem_append_right _ hn))]
+  · -- a function with an overload is not addressed by the encoding
+    have hovE : f.overload.isEmpty = false := by simpa [String.isEmpty_iff] using hov
+    refine ⟨fnIR f (f.inputs.map (newValueT [] []) ++ (nodeOutNames f.nodes).map (newValueT [] []))
+      xs gouts as, by simp [applyExperimentalFn, fnIR, hov], ?_, ?_⟩
+    · have hN0 : tableNames (f.inputs.map (newValueT [] []) ++ (nodeOutNames f.nodes).map (newValueT [] []))
+          = f.inputs ++ nodeOutNames f.nodes := by
+        simp [tableNames, List.map_map, Function.comp_def]
+      exact hser _ hN0
+    · simp [serExperimental, experimentalVIs, fnIR, hovE]
+
+theorem fns_experimental (ver : Int) (V : List ValueInfoP) (hV : V.all wfVI = true) :
+    ∀ (fs : List FunctionP) (xs : List IRFunction), fs.all (wfFunction ver) = true →
+      (∀ f ∈ fs, f.valueInfo = []) → Pointwise (FnShape ver) fs xs →
+      ∃ xs', applyExperimentalAll V xs = .ok xs' ∧
+        (ver < 10 → serFunctions ver xs' = .ok (fs.map (normFunction false))) ∧
+        xs'.flatMap serExperimental = fs.flatMap (experimentalVIs V)
+  | [], _, _, _, .nil => ⟨[], rfl, fun _ => rfl, rfl⟩
+  | f :: fs, _, hwf, hvi, .cons hx hxs => by
+    simp only [List.all_cons, Bool.and_eq_true] at hwf
+    obtain ⟨x', a1, a2, a3⟩ := fn_experimental ver V hV f hwf.1 (hvi f (by simp)) _ hx
+    obtain ⟨xs', b1, b2, b3⟩ := fns_experimental ver V hV fs _ hwf.2
+      (fun g hg => hvi g (List.mem_cons_of_mem _ hg)) hxs
+    refine ⟨x' :: xs', by simp [applyExperimentalAll, a1, b1, bind, Except.bind], ?_, by simp [a3, b3]⟩
+    intro hlt
+    have hd : decide (ver ≥ 10) = false := by simp; omega
+    simp [serFunctions, hd, a2, b2 hlt, bind, Except.bind]
 
 theorem serGraph_opsets (outer : Scopes) (ver : Option Int) (g : IRGraph) (ops : List OpsetP) :
     serGraph outer ver (g.setOpsets ops) = serGraph outer ver g := by
@@ -411,17 +808,10 @@ theorem serGraph_opsets (outer : Scopes) (ver : Option Int) (g : IRGraph) (ops :
 theorem addValueInfo_nil (g : GraphP) : GraphP.addValueInfo g [] = g := by
   cases g; simp [GraphP.addValueInfo]
 
-theorem experimentalVIs_nil (f : FunctionP) (h : f.valueInfo = []) : experimentalVIs f = [] := by
-  unfold experimentalVIs
-  split
-  · rfl
-  · rw [normFnVIs_eq, h]
-    simp [fnVI, findVI, findLast?]
-
 theorem model_rt (m : ModelP) (h : wfModel m = true) :
     ∃ x, desModel m = .ok x ∧ serModel x = .ok (normModel m) := by
   simp only [wfModel, Bool.and_eq_true] at h
-  obtain ⟨⟨⟨⟨⟨⟨hg, hf⟩, _hmeta⟩, hops⟩, hkeys⟩, hdev⟩, hexp⟩ := h
+  obtain ⟨⟨⟨⟨⟨⟨hg, hf⟩, _hmeta⟩, hops⟩, hkeys⟩, hdev⟩, _hexp⟩ := h
   -- graph
   have hgate : verAllows (some m.irVersion) = true ∨ graphHasDevCfg m.graph = false := by
     rcases Bool.or_eq_true_iff.1 hdev with h1 | h1
@@ -429,6 +819,11 @@ theorem model_rt (m : ModelP) (h : wfModel m = true) :
     · simp only [Bool.and_eq_true, Bool.not_eq_true'] at h1
       exact Or.inr h1.1.2
   obtain ⟨g, g1, g2⟩ := graph_rt [] (some m.irVersion) m.graph hg hgate
+  have hV : m.graph.valueInfo.all wfVI = true := by
+    cases hmg : m.graph with
+    | mk name doc nodes inits inputs outputs vis quant md =>
+      rw [hmg] at hg
+      exact (graphWF_of_wf [] name doc nodes inits inputs outputs vis quant md hg).1.wfVis
   -- functions
   have hfgate : 11 ≤ m.irVersion ∨ m.functions.all (fun f => !nodesHaveDevCfg f.nodes) = true := by
     rcases Bool.or_eq_true_iff.1 hdev with h1 | h1
@@ -438,62 +833,47 @@ theorem model_rt (m : ModelP) (h : wfModel m = true) :
   obtain ⟨fs, f1, f2, f3, f4⟩ := functions_rt m.irVersion m.functions hf hfgate
   have hdict : functionDict [] fs = fs := by
     rw [functionDict_append fs [] (by simpa [f3] using nodupKeys_iff.1 hkeys)]; simp
-  have hexpAll : (if m.irVersion < 10 then applyExperimentalAll m.graph.valueInfo fs else Except.ok fs)
-      = Except.ok fs := by
-    split
-    · rename_i hlt
-      apply applyExperimentalAll_nil
-      rcases Bool.or_eq_true_iff.1 hexp with h1 | h1
-      · simp at h1; omega
-      · exact h1
-    · rfl
   have hopset : opsetDict m.opsetImport = m.opsetImport := dictByKey_nodup _ _ (nodupStr_iff.1 hops)
-  refine ⟨{ graph := g.setOpsets (opsetDict m.opsetImport),
-            irVersion := m.irVersion, producerName := m.producerName,
-            producerVersion := m.producerVersion, domain := m.domain, modelVersion := m.modelVersion,
-            doc := m.doc, functions := fs, mprops := dictOfEntries m.metadata,
-            configs := m.configuration.map desModelCfg }, ?_, ?_⟩
-  · simp only [desModel, g1, f1, hdict, bind, Except.bind]
+  have hcfg : (if m.irVersion < 11 then [] else (m.configuration.map desModelCfg).map serModelCfg)
+      = m.configuration := by
     split
     · rename_i hlt
-      have : applyExperimentalAll m.graph.valueInfo fs = .ok fs := by
-        have := hexpAll
-        simpa [hlt] using this
-      rw [this]
-    · rfl
-  · have hgops : (g.setOpsets (opsetDict m.opsetImport)).opsets = m.opsetImport := by
-      cases g; simp [IRGraph.opsets, IRGraph.setOpsets, hopset]
-    have hcfg : (if m.irVersion < 11 then [] else (m.configuration.map desModelCfg).map serModelCfg)
-        = m.configuration := by
-      split
-      · rename_i hlt
-        rcases Bool.or_eq_true_iff.1 hdev with h1 | h1
-        · simp at h1; omega
-        · simp only [Bool.and_eq_true, List.isEmpty_iff] at h1
-          exact h1.1.1.symm
-      · simp only [List.map_map]
-        have : (serModelCfg ∘ desModelCfg) = id := by funext c; cases c; rfl
-        rw [this, List.map_id]
-    have hexpS : m.irVersion < 10 → fs.flatMap serExperimental = [] := by
-      intro hlt
-      rw [List.flatMap_eq_nil_iff]
-      intro x hx
-      exact serExperimental_nil x (f4 hlt x hx)
-    have hexpN : m.irVersion < 10 → m.functions.flatMap experimentalVIs = [] := by
-      intro hlt
-      rw [List.flatMap_eq_nil_iff]
+      rcases Bool.or_eq_true_iff.1 hdev with h1 | h1
+      · simp at h1; omega
+      · simp only [Bool.and_eq_true, List.isEmpty_iff] at h1
+        exact h1.1.1.symm
+    · simp only [List.map_map]
+      have : (serModelCfg ∘ desModelCfg) = id := by funext c; cases c; rfl
+      rw [this, List.map_id]
+  have hgops : ∀ g : IRGraph, (g.setOpsets (opsetDict m.opsetImport)).opsets = m.opsetImport := by
+    intro g; cases g; simp [IRGraph.opsets, IRGraph.setOpsets, hopset]
+  by_cases hc : m.irVersion ≥ 10
+  · have hlt : ¬ m.irVersion < 10 := by omega
+    refine ⟨{ graph := g.setOpsets (opsetDict m.opsetImport),
+              irVersion := m.irVersion, producerName := m.producerName,
+              producerVersion := m.producerVersion, domain := m.domain, modelVersion := m.modelVersion,
+              doc := m.doc, functions := fs, mprops := dictOfEntries m.metadata,
+              configs := m.configuration.map desModelCfg }, ?_, ?_⟩
+    · simp only [desModel, g1, f1, hdict, hlt, if_false, bind, Except.bind]
+    · simp only [serModel, serGraph_opsets, g2, f2, hgops, hcfg, hc, if_true, bind, Except.bind, normModel,
+        normEntries]
+  · have hlt : m.irVersion < 10 := by omega
+    have hvis : ∀ f ∈ m.functions, f.valueInfo = [] := by
       intro f hfm
-      apply experimentalVIs_nil
       have := List.all_eq_true.1 hf f hfm
       simp only [wfFunction, Bool.and_eq_true, Bool.or_eq_true, decide_eq_true_eq,
         List.isEmpty_iff] at this
       rcases this.2 with h10 | h10
       · omega
       · exact h10
-    simp only [serModel, serGraph_opsets, g2, f2, hgops, hcfg, bind, Except.bind, normModel, normEntries]
-    by_cases hc : m.irVersion ≥ 10
-    · simp [hc]
-    · have hlt : m.irVersion < 10 := by omega
-      simp [hc, hexpS hlt, hexpN hlt, addValueInfo_nil]
+    obtain ⟨fs', e1, e2, e3⟩ := fns_experimental m.irVersion m.graph.valueInfo hV m.functions fs hf hvis f4
+    refine ⟨{ graph := g.setOpsets (opsetDict m.opsetImport),
+              irVersion := m.irVersion, producerName := m.producerName,
+              producerVersion := m.producerVersion, domain := m.domain, modelVersion := m.modelVersion,
+              doc := m.doc, functions := fs', mprops := dictOfEntries m.metadata,
+              configs := m.configuration.map desModelCfg }, ?_, ?_⟩
+    · simp only [desModel, g1, f1, hdict, hlt, if_true, e1, bind, Except.bind]
+    · simp only [serModel, serGraph_opsets, g2, e2 hlt, hgops, hcfg, hc, if_false, bind, Except.bind,
+        normModel, normEntries, e3, decide_false]
 
 end IrVerif.Serde
